@@ -40,6 +40,13 @@ def main(ck, args):
         return 2
     items = collect(ck, args)
     results = []
+    # evidence files must describe the unchanged tree: keep them aside while patched trees are checked
+    import shutil, tempfile
+    evdir = os.path.join(ck.VERIF, "evidence")
+    keep = tempfile.mkdtemp(prefix="verif-evidence-", dir=ck.SCRATCH_ROOT)
+    if os.path.isdir(evdir):
+        for f in os.listdir(evdir):
+            shutil.copy2(os.path.join(evdir, f), keep)
     for it in items:
         ap = git(ck, "apply", "--whitespace=nowarn", it["patch"])
         if ap.returncode != 0:
@@ -65,6 +72,9 @@ def main(ck, args):
             cl = git(ck, "status", "--porcelain")
             if cl.stdout.strip():
                 git(ck, "clean", "-fd")
+    for f in os.listdir(keep):
+        shutil.copy2(os.path.join(keep, f), evdir)
+    shutil.rmtree(keep, ignore_errors=True)
     bad = 0
     for name, verdict, info in results:
         print("%-60s %-12s %s" % (name, verdict, info))
